@@ -12,6 +12,7 @@ from conda_content_trust import authentication as A, common as C, signing as S
 
 from vlib import configrun, gen_json as G, keys, related
 from vlib.ref_canon import canon, jeq
+from vlib import fuzz as FZ
 from vlib.runner import Unit, Violation
 
 PROPERTY = "C07"
@@ -333,6 +334,10 @@ def check_config(case):
                                               "tz=%s" % case["config"].get("TZ")]}
 
 
+def check_fuzz(case):
+    return FZ.run_campaign("fuzz_canon", case, PROPERTY)
+
+
 UNITS = [
     Unit("differential", check_diff, strategy=_value_with_perm, quick=1600, thorough=60000,
          essential=["non-ascii", "lone-surrogate", "non-bmp", "float", "unsorted-keys", "control"],
@@ -345,6 +350,8 @@ UNITS = [
                                                             st.integers(0, 15)),
          quick=600, thorough=20000,
          doc="same object changed in place / ==-equal other JSON value / sign-verify around in-place edits: bytes follow the value"),
+    Unit("fuzz", check_fuzz, enumerate=lambda tier: FZ.campaigns(tier, PROPERTY), shards_quick=4, shards_thorough=16,
+         doc="atheris (libFuzzer) coverage-guided campaign with the oracle in-target"),
     Unit("codepoints", check_codepoints, enumerate=enum_codepoints, exhaustive=True,
          doc="every Unicode code point (incl. lone surrogates) as element, as key and inside a string"),
     Unit("config", check_config, shrink=False, strategy=_corpus_and_config, quick=24, thorough=400,
